@@ -544,12 +544,10 @@ def expandUser (env : Env) (s : Bytes) (more : Bool) : Bytes × Bytes :=
 
 def segStep (env : Env) (first : Bool) (more : Bool) (s : WF) : Seg → Option WF
   | .unq (.lit raw) =>
-    let (s, raw) :=
-      if first then
-        let (pre, rest) := expandUser env raw more
-        (s.add ⟨pre, true⟩, rest)
-      else (s, raw)
-    some (s.add ⟨unbackslash raw, false⟩)
+    -- the tilde prefix (quoted) and the rest (unquoted) are added only when non-empty
+    let pr := if first then expandUser env raw more else ([], raw)
+    let s := if pr.1.isEmpty then s else s.add ⟨pr.1, true⟩
+    some (if pr.2.isEmpty then s else s.add ⟨unbackslash pr.2, false⟩)
   | .unq (.param n) => some (splitAdd s (paramVal env n))
   | .unq (.paramOp n o w) => some (splitAdd s (expandOp env n o w))
   | .unq (.arith e) => (evalA env e).map fun v => s.add ⟨showInt v, false⟩
@@ -560,7 +558,9 @@ def segStep (env : Env) (first : Bool) (more : Bool) (s : WF) : Seg → Option W
     | some _ =>
       -- one fieldPart per inner part
       let s := { s with allowEmpty := true }
-      ps.foldlM (fun (s : WF) p => (expandPartQ env true p).map fun v => s.add ⟨v, true⟩) s
+      -- an empty "" has no parts but still contributes an (empty, quoted) part
+      if ps.isEmpty then some (s.add ⟨[], true⟩)
+      else ps.foldlM (fun (s : WF) p => (expandPartQ env true p).map fun v => s.add ⟨v, true⟩) s
 
 def segLoop (env : Env) : Bool → WF → List Seg → Option WF
   | _, s, [] => some s
@@ -677,10 +677,8 @@ def textAtoms (v : Bytes) : List Atom := v.map .ch
 
 def segAtoms (env : Env) (first more : Bool) : Seg → Option (List Atom)
   | .unq (.lit raw) =>
-    if first then
-      let (pre, rest) := expandUser env raw more
-      some (Atom.mark :: textAtoms pre ++ textAtoms (unbackslash rest))
-    else some (textAtoms (unbackslash raw))
+    let pr := if first then expandUser env raw more else ([], raw)
+    some (textAtoms pr.1 ++ textAtoms (unbackslash pr.2))
   | .unq (.param n) => some (valueAtoms (paramVal env n))
   | .unq (.paramOp n o w) => some (valueAtoms (expandOp env n o w))
   | .unq (.arith e) => (evalA env e).map fun v => textAtoms (showInt v)
